@@ -131,7 +131,9 @@ func grammar(c *ev.Ctx) {
 			eval("enum", strings.TrimSpace(tl)+body)
 		}
 	}
-	for _, body := range []string{"/a/", "/a", "/", "//", "/a\\/", "/a\\", "/(/", "/[a-/", "/a/ /b/"} {
+	for _, body := range []string{"/a/", "/a", "/", "//", "/a\\/", "/a\\", "/(/", "/[a-/", "/a/ /b/",
+		// patterns no string matches (empty character classes), huge repetitions
+		"/[^\\s\\S]/", "/[^\\x00-\\x{10FFFF}]/", "/a[^\\d\\D]+b/", "/[^\\w\\W]?/", "/a{1000}/", "/(a{100}){100}/", "/\\b\\B/", "/$a^/"} {
 		for _, tl := range tails {
 			eval("regex", body+tl)
 			eval("regex", tl+body)
